@@ -315,7 +315,8 @@ func verifC18_timed() {
 		t.vOpenGate(gate)
 	}()
 	start := vGhostElapsed()
-	nc.SetReadDeadline(time.Now().Add(D))
+	deadline := time.Now().Add(D)
+	nc.SetReadDeadline(deadline)
 	p := make([]byte, 4)
 	n, err := nc.Read(p)
 	took := vGhostElapsed() - start
@@ -329,6 +330,22 @@ func verifC18_timed() {
 		vAssert(vIsOpen(c), "C18.deadline.idle-expiry-keeps-connection")
 		_, e2 := nc.Read(p)
 		vAssert(vAnd(e2 != nil, errors.Is(e2, context.DeadlineExceeded)), "C18.deadline.idle-expiry-fails-reads")
+		vAssert(vIsOpen(c), "C18.deadline.still-open-after-failed-read")
+		// setting the very same (by now passed) deadline again changes nothing: calls keep failing
+		nc.SetReadDeadline(deadline)
+		again := make(chan error, 1)
+		go func() {
+			_, e := nc.Read(p)
+			again <- e
+		}()
+		select {
+		case e := <-again:
+			vAssert(vAnd(e != nil, errors.Is(e, context.DeadlineExceeded)), "C18.deadline.same-passed-deadline-again-still-fails")
+		case <-time.After(2 * time.Second):
+			vAssert(false, "C18.deadline.same-passed-deadline-again-still-fails")
+			nc.SetReadDeadline(time.Now().Add(-time.Second))
+			<-again
+		}
 		vAssert(vIsOpen(c), "C18.deadline.still-open-after-failed-read")
 		nc.SetReadDeadline(time.Time{})
 		t.vOpenGate(gate2)
